@@ -28,6 +28,8 @@ pub fn c08(sc: &Scenario, recs: &[CallRecord], stats: &mut Stats) -> Vec<Violati
                 HOp::SetRange(..) => "set_range",
                 HOp::SetRate(_) => "set_rate",
                 HOp::SetFlags(..) => "set_flags",
+                HOp::SetUnsafe(_) => "set_unsafe",
+                HOp::SetMutators(_) => "set_mutators",
             })
             .collect();
         let last_before = prev_ops.last().copied().unwrap_or("none");
